@@ -322,6 +322,9 @@ def run_accept_loop(ck, tier):
             ev2 = [e[0] for e in E.events if e[0] in ('accept', 'sem.acquire', 'sem.forget', 'spawn', 'sem.wait', 'sem.release_on_drop')]
             return dict(r1=r1.var, spawned1=spawned1, permits1=permits1, ev1=ev1, r2=r2.var, spawned2=spawned2, permits2=permits2, ev2=ev2)
         res = ck.explore(h)
+
+        def on_w(m, where):
+            return native_accept(ck)
         for p in res:
             if p.status != 'ok':
                 ck.inconclusive.append(f'accept loop ({incoming} incoming): {p.status} {p.info}')
@@ -330,9 +333,9 @@ def run_accept_loop(ck, tier):
             n = incoming
             exp1 = z3.If(z3.ULT(P, n), P, BV(n))
             ck.obligation(f'accept loop, {n} incoming: connections handed to tasks = min(incoming, free permits)', p.pc,
-                          BV(F['spawned1']) == exp1, {}, None, [])
+                          BV(F['spawned1']) == exp1, {}, on_w, [])
             ck.obligation(f'accept loop, {n} incoming: every spawned task holds exactly one forgotten permit', p.pc,
-                          F['permits1'] == P - BV(F['spawned1']), {}, None, [])
+                          F['permits1'] == P - BV(F['spawned1']), {}, on_w, [])
             # order: each spawn is preceded by its own acquire + forget
             ok_order = True
             have = 0
@@ -345,11 +348,32 @@ def run_accept_loop(ck, tier):
                     have -= 1
                 elif e == 'sem.release_on_drop':
                     ok_order = False
-            ck.obligation(f'accept loop, {n} incoming: a permit is taken and forgotten before each spawn, never dropped', p.pc, z3.BoolVal(ok_order), {}, None, [])
+            ck.obligation(f'accept loop, {n} incoming: a permit is taken and forgotten before each spawn, never dropped', p.pc, z3.BoolVal(ok_order), {}, on_w, [])
             # after a permit came back: exactly one more waiting connection is served, if any was waiting
             waiting = z3.UGT(BV(n), P)
             ck.obligation(f'accept loop, {n} incoming: a returned permit lets exactly one waiting connection in', p.pc,
                           z3.And(BV(F['spawned2'] - F['spawned1']) == z3.If(waiting, BV(1), BV(0)),
-                                 F['permits2'] == P - BV(F['spawned1']) + 1 - BV(F['spawned2'] - F['spawned1'])), {}, None, [])
+                                 F['permits2'] == P - BV(F['spawned1']) + 1 - BV(F['spawned2'] - F['spawned1'])), {}, on_w, [])
             ck.cover(f'accept loop: {"some connection waits" if F["spawned1"] < n else "all served"}', True)
             ck.sample({'incoming': n, 'events': F['ev2'], 'spawned_first_poll': F['spawned1'], 'spawned_after_release': F['spawned2']})
+
+
+def native_accept(ck):
+    """loopback, connection limit 1: A is served; B connects and must wait; A closes and B is picked up; C connects while B is
+    still open and must NOT be served.  -> (True if the limit is exceeded natively | None, description, scenario)"""
+    from .wire import frame
+    noop = frame(0x0a, opaque=9).hex()
+    sc = {'kind': 'socket', 'item_limit': 1024, 'timeout_secs': 5, 'connection_limit': 1, 'final_wait_ms': 300,
+          'conns': [{'chunks': [noop], 'pause_ms': 40, 'read_ms': 250, 'end': 'hold'},
+                    {'chunks': [noop], 'pause_ms': 40, 'read_ms': 250, 'end': 'hold'},
+                    {'chunks': [noop], 'pause_ms': 40, 'read_ms': 400, 'end': 'hold', 'close_first': [0]}]}
+    out = ck.replay([sc])[0]
+    c = out['conns']
+    a_served = len(c[0].get('received', '')) >= 48
+    b_waited = len(c[1].get('received', '')) == 0
+    b_later = len(c[1].get('later_received', '')) >= 48
+    c_served = len(c[2].get('received', '')) >= 48 or len(c[2].get('later_received', '')) >= 48
+    desc = f"connection limit 1 over loopback: A served={a_served}; B waits while A is open={b_waited}; after A closed B served={b_later}; " \
+           f"C (opened while B is still open) served={c_served}"
+    bad = c_served or not a_served or not b_waited or not b_later
+    return (True if bad else None), desc, sc
